@@ -18,7 +18,6 @@ MODULE = 'XrlParser.Props.C07'
 NAMESPACE = 'XrlParser.C07'
 PROPS_FILE = os.path.join(LEAN_DIR, 'XrlParser', 'Props', 'C07.lean')
 WRAP = ['-Wl,--wrap=malloc,--wrap=calloc,--wrap=realloc,--wrap=free,--wrap=strdup,--wrap=strndup,--wrap=vasprintf']
-PROPOSED = os.path.join(VERIF, 'props', 'c07.known_findings.txt')     # proposed entries (merged into known_findings.txt by the integrator)
 
 # known-finding sites (the file is matched by these exact keys)
 K_LOCALE = 'CompoundParser setlocale(LC_NUMERIC) xraylib-parser.c:338-344'
@@ -342,14 +341,8 @@ def failing_theorems(build_log):
     return names
 
 def load_known():
-    out = list(core.load_known_findings().get(ID, []))
-    try:
-        for l in open(PROPOSED):
-            m = re.match(r'finding:\s+property=(C\d+)\s+key=\[([^\]]*)\]\s*(.*)', l.strip())
-            if m and m.group(1) == ID and m.group(2) not in [k for k, _ in out]: out.append((m.group(2), m.group(3)))
-    except OSError:
-        pass
-    return out
+    """the ONLY file that can suppress a violation is /verif/known_findings.txt"""
+    return list(core.load_known_findings().get(ID, []))
 
 # ------------------------------------------------------------------------------------------------
 # violation search: specification oracle vs the real library
